@@ -50,8 +50,8 @@ Step(e) ==
     \/ a.op = "AddObj" /\ AddObj(a.s, a.x)
     \/ a.op = "Tamper" /\ Tamper(a.s, a.o)
     \/ a.op = "ExtDelete" /\ ExtDelete(a.s, a.o)
-    \/ a.op = "Check" /\ Check(a.s, a.o)
-    \/ a.op = "Status" /\ Status(a.s, ToSet(a.ids), a.shallow, a.idx)
+    \/ a.op = "Check" /\ Check(a.s, a.o, a.ro)
+    \/ a.op = "Status" /\ Status(a.s, ToSet(a.ids), a.shallow, a.idx, a.ro)
     \/ a.op = "CompareStatus" /\ CompareStatus(a.a, a.b, ToSet(a.ids), a.shallow)
     \/ a.op = "Gc" /\ Gc(a.s, ToSet(a.used), ToSet(a.foreign), a.ord, a.shallow, a.dry, a.ro)
     \/ a.op = "TransferBegin" /\ TransferBegin(a.src, a.dst, ToSet(a.req), a.shallow, ToSet(a.F), a.verify, a.idx)
@@ -114,7 +114,7 @@ Fail == /\ Have /\ ~ENABLED Match
 \* the logged action record with JSON arrays turned into sets
 ObsAct(e) ==
     LET a == e.act IN
-    CASE a.op = "Status" -> [op |-> "Status", s |-> a.s, ids |-> ToSet(a.ids), shallow |-> a.shallow, idx |-> a.idx]
+    CASE a.op = "Status" -> [op |-> "Status", s |-> a.s, ids |-> ToSet(a.ids), shallow |-> a.shallow, idx |-> a.idx, ro |-> a.ro]
       [] a.op = "CompareStatus" -> [op |-> "CompareStatus", a |-> a.a, b |-> a.b, ids |-> ToSet(a.ids), shallow |-> a.shallow]
       [] a.op = "Gc" -> [op |-> "Gc", s |-> a.s, used |-> ToSet(a.used), foreign |-> ToSet(a.foreign), ord |-> a.ord,
                          shallow |-> a.shallow, dry |-> a.dry, ro |-> a.ro]
